@@ -113,6 +113,7 @@ type State struct {
 	rootAllArgs   []Value // closure roots: captured values followed by parameters
 	fullLog       []LogEntry // inside old(): the whole current log (s.log is truncated to the old length)
 	cutLoopAt     int // log length when the first cut loop was entered (-1: none)
+	rvNewAt       map[int]int // reflect.New handles -> log length when created
 	storeGuard    *Term // set while a defaulting triangle is executed speculatively: stores become guarded
 	ghostlog      map[string]bool
 	ghostlogContract map[string]bool // recorded callees whose own contract describes the results (ghostlog f+contract)
